@@ -646,7 +646,8 @@ Definition simple_doc (d : doc) : Prop :=
   Forall simple_drow (d_discounts d) /\ Forall simple_drow (d_charges d) /\
   Forall (fun l => Forall combo_ok (ln_taxes l)) (d_lines d) /\
   Forall (fun x => Forall combo_ok (dd_taxes x)) (d_discounts d) /\
-  Forall (fun x => Forall combo_ok (dd_taxes x)) (d_charges d).
+  Forall (fun x => Forall combo_ok (dd_taxes x)) (d_charges d) /\
+  Forall (fun r => pct_ok (pr_pct r)) (d_advances d).
 
 (* budgets, in units of eps = half a unit of the (c+2)-th decimal = 1/200 minor unit *)
 Definition b_drow (d : doc) : Q := e_sum (d_lines d) + 1.
@@ -664,6 +665,39 @@ Definition b_inc (d : doc) : Q := match d_pit d with [] => 0 | _ :: _ => b_cats 
 Definition b_total (d : doc) : Q := b_total1 d + b_inc d.
 Definition b_twt (d : doc) : Q := b_total d + (b_tax d + 1).
 Definition b_payable (d : doc) : Q := b_twt d + 1.
+Definition b_discount (d : doc) : Q := nQ (length (d_discounts d)) * b_drow d.
+Definition b_charge (d : doc) : Q := nQ (length (d_charges d)) * b_drow d.
+Definition b_advances (d : doc) : Q := nQ (length (d_advances d)) * (b_twt d + 1).
+Definition b_due (d : doc) : Q := b_payable d + (b_advances d + 1).
+
+(* optional totals: both present and close, or both absent *)
+Definition ocl (B : Q) (o o' : option Q) : Prop :=
+  match o, o' with Some a, Some b => cl B a b | None, None => True | _, _ => False end.
+
+Lemma ocl_weaken B B' o o' : ocl B o o' -> B <= B' -> ocl B' o o'.
+Proof. unfold ocl. destruct o; destruct o'; auto. intros H L. eapply cl_weaken; eassumption. Qed.
+
+Lemma opt_sum_close c B xs ys : cl B (oQ (s_opt_sum c xs)) (oQ (s_opt_sum c ys)) -> length xs = length ys ->
+  ocl (B + (1 # 2) * unitQ c)
+      (match option_map fq (s_opt_sum c xs) with Some q => Some (rnd c q) | None => None end)
+      (match option_map fq (s_opt_sum c ys) with Some q => Some (noround c q) | None => None end).
+Proof.
+  intros H L. destruct xs; destruct ys; try discriminate; cbn [s_opt_sum option_map ocl]; [exact I|].
+  unfold noround. apply cl_rnd. exact H.
+Qed.
+
+Lemma advances_close c B ws ws' twt twt' rs : Forall (fun r => pct_ok (pr_pct r)) rs -> 0 <= B ->
+  cl (B * eps c) twt twt' -> (c + 2 <= ws)%nat ->
+  Forall2 (cl ((B + 1) * eps c)) (map fq (map (s_advance rnd c (mkF twt ws)) rs))
+                                 (map fq (map (s_advance noround c (mkF twt' ws')) rs)).
+Proof.
+  intros F BP C W. pose proof (eps_pos c) as EPS.
+  induction F as [|r rs H _ IH]; cbn [map]; constructor; [|exact IH].
+  unfold s_advance. cbn [raise fq]. setoid_replace ((B + 1) * eps c) with (B * eps c + eps c) by ring.
+  unfold pct_ok in H. destruct (pr_pct r) as [p|].
+  - unfold prod. cbn [fq fp]. unfold noround. apply (cl_rnd_w c); [exact W|]. apply cl_mult; assumption.
+  - eapply cl_weaken; [apply cl_refl|nra].
+Qed.
 
 Lemma line_rows_close c ls ils ils' : lines_close c ls ils ils' ->
   Forall (fun l => Forall combo_ok (ln_taxes l)) ls ->
@@ -703,6 +737,25 @@ Proof. intros H. unfold nQ. rewrite <- Zle_Qle. lia. Qed.
 Lemma rows_close_nonempty c bs rs rs' : rows_close c bs rs rs' -> bs <> [] -> rs <> [] /\ rs' <> [].
 Proof. intros H N. destruct H; [congruence|split; discriminate]. Qed.
 
+Lemma row_weight_nonneg bs : Forall (fun b => 0 <= b) bs -> forall ts, 0 <= row_weight bs ts.
+Proof.
+  intros F. induction F as [|b r H _ IH]; intros [|t ts]; cbn [row_weight]; try lra.
+  pose proof (nQ_nonneg (length t)). specialize (IH ts). nra.
+Qed.
+
+Lemma b_cats_nonneg d : 0 <= b_cats d.
+Proof.
+  unfold b_cats. pose proof (nQ_nonneg (ncombos (row_taxes d))).
+  assert (0 <= row_weight (map (fun b => b + 1) (row_bounds d)) (row_taxes d)); [|lra].
+  apply row_weight_nonneg. apply Forall_forall. intros b I. apply in_map_iff in I. destruct I as (b0 & <- & I).
+  assert (0 <= b0); [|lra]. unfold row_bounds in I. pose proof (e_sum_nonneg (d_lines d)).
+  apply in_app_or in I. destruct I as [I|I]; [|apply in_app_or in I; destruct I as [I|I]];
+    apply in_map_iff in I; destruct I as (z & <- & _); [apply e_line_nonneg|unfold b_drow; lra|unfold b_drow; lra].
+Qed.
+
+Lemma b_inc_nonneg d : 0 <= b_inc d.
+Proof. unfold b_inc. pose proof (b_cats_nonneg d). destruct (d_pit d); lra. Qed.
+
 (* the specification with and without rounding, on a simple document *)
 Lemma spec_close d x : simple_doc d -> ideal d = Some x ->
   exists y, exact d = Some y /\
@@ -712,9 +765,13 @@ Lemma spec_close d x : simple_doc d -> ideal d = Some x ->
     cl (b_total d * eps c + P) (i_total x) (i_total y) /\
     cl (b_tax d * eps c + P) (i_tax x) (i_tax y) /\
     cl (b_twt d * eps c + P) (i_twt x) (i_twt y) /\
-    cl (b_payable d * eps c + P) (i_payable x) (i_payable y).
+    cl (b_payable d * eps c + P) (i_payable x) (i_payable y) /\
+    ocl (b_discount d * eps c + P) (i_discount x) (i_discount y) /\
+    ocl (b_charge d * eps c + P) (i_charge x) (i_charge y) /\
+    ocl (b_advances d * eps c + P) (i_advances x) (i_advances y) /\
+    ocl (b_due d * eps c + P) (i_due x) (i_due y).
 Proof.
-  intros (CR & NE & FL & FD & FC & TL & TD & TC). unfold ideal, exact, spec. rewrite CR.
+  intros (CR & NE & FL & FD & FC & TL & TD & TC & FA). unfold ideal, exact, spec. rewrite CR.
   set (c := d_c d).
   destruct (s_lines_close c (d_cur d) (d_rates d) (d_lines d) FL) as (ils & ils' & E1 & E2 & LC).
   rewrite E1, E2.
@@ -762,7 +819,15 @@ Proof.
     clear CD. revert K CD'. generalize (nQ (ngroups cts)) (nQ (ncombos (row_taxes d))) (cdist cts cts') (eps c)
       (row_weight (map (fun b : Q => b + 1) (row_bounds d)) (row_taxes d)). intros n1 n2 cd e rw K CD. lra. }
   intros H. injection H as <-. eexists. split; [reflexivity|]. cbv zeta.
-  cbn [i_sum i_total i_tax i_twt i_payable]. unfold noround.
+  cbn [i_sum i_total i_tax i_twt i_payable i_discount i_charge i_advances i_due].
+  assert (OD := opt_sum_close c _ (map snd dds) (map snd dds') HD ltac:(unfold dds, dds'; rewrite !map_length; reflexivity)).
+  assert (OC := opt_sum_close c _ (map snd ccs) (map snd ccs') HC ltac:(unfold ccs, ccs'; rewrite !map_length; reflexivity)).
+  set (PD := match option_map fq (s_opt_sum c (map snd dds)) with Some q => Some (rnd c q) | None => None end) in *.
+  set (PD' := match option_map fq (s_opt_sum c (map snd dds')) with Some q => Some (noround c q) | None => None end) in *.
+  set (PC := match option_map fq (s_opt_sum c (map snd ccs)) with Some q => Some (rnd c q) | None => None end) in *.
+  set (PC' := match option_map fq (s_opt_sum c (map snd ccs')) with Some q => Some (noround c q) | None => None end) in *.
+  clearbody PD PD' PC PC'.
+  unfold noround.
   set (ws := fp sum) in *.
   (* total before taxes *)
   set (t1 := fq sum - rnd ws (oQ (s_opt_sum c (map snd dds))) + rnd ws (oQ (s_opt_sum c (map snd ccs)))).
@@ -803,12 +868,48 @@ Proof.
     apply cl_plus; [exact HW|]. destruct (d_rounding d) as [r|].
     - setoid_replace (eps c) with (0 + eps c) by ring. apply (cl_rnd_w c); [exact W|apply cl_refl].
     - eapply cl_weaken; [apply cl_refl|lra]. }
-  split; [apply cl_rnd, CS|]. split; [apply cl_rnd, HT|]. split; [apply cl_rnd, HX|]. split; [apply cl_rnd, HW|apply cl_rnd, HP].
+  split; [apply cl_rnd, CS|]. split; [apply cl_rnd, HT|]. split; [apply cl_rnd, HX|]. split; [apply cl_rnd, HW|]. split; [apply cl_rnd, HP|].
+  split; [eapply ocl_weaken; [exact OD|]; unfold b_discount, b_drow; fold ES; apply Qle_lteq; right; ring|].
+  split; [eapply ocl_weaken; [exact OC|]; unfold b_charge, b_drow; fold ES; apply Qle_lteq; right; ring|].
+  (* advances and the amount due *)
+  assert (BT : 0 <= b_twt d).
+  { pose proof (b_cats_nonneg d). pose proof (b_inc_nonneg d).
+    pose proof (nQ_nonneg (length (d_discounts d))). pose proof (nQ_nonneg (length (d_charges d))).
+    unfold b_twt, b_tax, b_total, b_total1, b_drow. fold ES.
+    assert (0 <= nQ (length (d_discounts d)) * (ES + 1)) by nra. assert (0 <= nQ (length (d_charges d)) * (ES + 1)) by nra. lra. }
+  pose proof (cl_sum_uniform _ _ _ (advances_close c (b_twt d) ws (fp sum') _ _ (d_advances d) FA BT HW W)) as HA.
+  rewrite !map_length in HA. rewrite <- !oQ_opt_sum with (c := c) in HA. unfold noround in HA.
+  set (advs := map (s_advance rnd c _) (d_advances d)) in *.
+  set (advs' := map (s_advance (fun _ q => q) c _) (d_advances d)) in *.
+  assert (LA : length advs = length advs') by (unfold advs, advs'; rewrite !map_length; reflexivity).
+  split.
+  - setoid_replace (nQ (length (d_advances d)) * ((b_twt d + 1) * eps c)) with (b_advances d * eps c) in HA by (unfold b_advances; ring).
+    pose proof (opt_sum_close c _ advs advs' HA LA) as OA. unfold noround in OA. exact OA.
+  - destruct advs as [|a0 ar]; destruct advs' as [|a0' ar']; try discriminate; cbn [s_opt_sum ocl]; [exact I|].
+    cbn [s_opt_sum oQ] in HA. apply cl_rnd. unfold b_due.
+    setoid_replace ((b_payable d + (b_advances d + 1)) * eps c)
+      with (b_payable d * eps c + (nQ (length (d_advances d)) * ((b_twt d + 1) * eps c) + eps c)) by (unfold b_advances; ring).
+    apply cl_minus; [exact HP|]. apply (cl_rnd_w c); [exact W|exact HA].
 Qed.
 
 (* ------------------------------------------------------------------------------------------ *)
 (* the presented totals of the calculation against the unrounded exact value                   *)
 (* ------------------------------------------------------------------------------------------ *)
+(* optional totals of the calculation against optional exact values *)
+Definition obound (P : Q -> Prop) (o : option amount) (o' : option Q) : Prop :=
+  match o, o' with Some a, Some q => P (Qabs (toQ a - q)) | None, None => True | _, _ => False end.
+
+Lemma obound_le c B o oi oy : opres c o oi -> ocl B oi oy -> obound (fun e => e <= B) o oy.
+Proof.
+  unfold opres, ocl, obound. destruct o; destruct oi; destruct oy; try contradiction; auto.
+  intros [H _] K. unfold cl in K. rewrite H. exact K.
+Qed.
+
+Lemma obound_lt B u o oy : obound (fun e => e <= B) o oy -> B < u -> obound (fun e => e < u) o oy.
+Proof.
+  unfold obound. destruct o; destruct oy; auto. intros H L. eapply Qle_lt_trans; eassumption.
+Qed.
+
 Lemma precise_error_bound_budget d t : simple_doc d -> calculate d = Totals t ->
   exists y, exact d = Some y /\
     let c := d_c d in
@@ -817,56 +918,64 @@ Lemma precise_error_bound_budget d t : simple_doc d -> calculate d = Totals t ->
     Qabs (toQ (t_total t) - i_total y) <= b_total d * eps c + P /\
     Qabs (toQ (t_tax t) - i_tax y) <= b_tax d * eps c + P /\
     Qabs (toQ (t_twt t) - i_twt y) <= b_twt d * eps c + P /\
-    Qabs (toQ (t_payable t) - i_payable y) <= b_payable d * eps c + P.
+    Qabs (toQ (t_payable t) - i_payable y) <= b_payable d * eps c + P /\
+    obound (fun e => e <= b_discount d * eps c + P) (t_discount t) (i_discount y) /\
+    obound (fun e => e <= b_charge d * eps c + P) (t_charge t) (i_charge y) /\
+    obound (fun e => e <= b_advances d * eps c + P) (t_advances t) (i_advances y) /\
+    obound (fun e => e <= b_due d * eps c + P) (t_due t) (i_due y).
 Proof.
   intros S H. destruct (calc_refines_ideal d t H) as (x & I & R).
   destruct (spec_close d x S I) as (y & E & K). exists y. split; [exact E|]. cbv zeta in *.
-  destruct R as (_ & (R1 & _) & _ & _ & _ & (R2 & _) & (R3 & _) & (R4 & _) & (R5 & _) & _).
-  destruct K as (K1 & K2 & K3 & K4 & K5). unfold cl in *.
-  rewrite R1, R2, R3, R4, R5. repeat split; assumption.
+  destruct R as (_ & (R1 & _) & RD & RC & _ & (R2 & _) & (R3 & _) & (R4 & _) & (R5 & _) & RA & RU & _).
+  destruct K as (K1 & K2 & K3 & K4 & K5 & K6 & K7 & K8 & K9). unfold cl in *.
+  rewrite R1, R2, R3, R4, R5.
+  repeat (split; [assumption|]).
+  split; [eapply obound_le; eassumption|]. split; [eapply obound_le; eassumption|].
+  split; [eapply obound_le; eassumption|eapply obound_le; eassumption].
 Qed.
-
-Lemma row_weight_nonneg bs : Forall (fun b => 0 <= b) bs -> forall ts, 0 <= row_weight bs ts.
-Proof.
-  intros F. induction F as [|b r H _ IH]; intros [|t ts]; cbn [row_weight]; try lra.
-  pose proof (nQ_nonneg (length t)). specialize (IH ts). nra.
-Qed.
-
-Lemma b_cats_nonneg d : 0 <= b_cats d.
-Proof.
-  unfold b_cats. pose proof (nQ_nonneg (ncombos (row_taxes d))).
-  assert (0 <= row_weight (map (fun b => b + 1) (row_bounds d)) (row_taxes d)); [|lra].
-  apply row_weight_nonneg. apply Forall_forall. intros b I. apply in_map_iff in I. destruct I as (b0 & <- & I).
-  assert (0 <= b0); [|lra]. unfold row_bounds in I. pose proof (e_sum_nonneg (d_lines d)).
-  apply in_app_or in I. destruct I as [I|I]; [|apply in_app_or in I; destruct I as [I|I]];
-    apply in_map_iff in I; destruct I as (z & <- & _); [apply e_line_nonneg|unfold b_drow; lra|unfold b_drow; lra].
-Qed.
-
-Lemma b_inc_nonneg d : 0 <= b_inc d.
-Proof. unfold b_inc. pose proof (b_cats_nonneg d). destruct (d_pit d); lra. Qed.
 
 Lemma eps_unit c : eps c == (1 # 200) * unitQ c.
 Proof. unfold eps. rewrite unitQ_add. change (unitQ 2) with (1 # 100). ring. Qed.
 
 (* ordinary-sized: the budget of the payable amount (the largest) stays under 100, i.e. under half
    a minor unit of accumulated working-precision error, the other half being presentation *)
-Lemma precise_error_bound d t : simple_doc d -> b_payable d < 100 -> calculate d = Totals t ->
+Lemma precise_error_bound d t : simple_doc d -> b_due d < 100 -> calculate d = Totals t ->
   exists y, exact d = Some y /\
-    Qabs (toQ (t_sum t) - i_sum y) < unitQ (d_c d) /\
-    Qabs (toQ (t_total t) - i_total y) < unitQ (d_c d) /\
-    Qabs (toQ (t_tax t) - i_tax y) < unitQ (d_c d) /\
-    Qabs (toQ (t_twt t) - i_twt y) < unitQ (d_c d) /\
-    Qabs (toQ (t_payable t) - i_payable y) < unitQ (d_c d).
+    let u := unitQ (d_c d) in
+    Qabs (toQ (t_sum t) - i_sum y) < u /\
+    Qabs (toQ (t_total t) - i_total y) < u /\
+    Qabs (toQ (t_tax t) - i_tax y) < u /\
+    Qabs (toQ (t_twt t) - i_twt y) < u /\
+    Qabs (toQ (t_payable t) - i_payable y) < u /\
+    obound (fun e => e < u) (t_discount t) (i_discount y) /\
+    obound (fun e => e < u) (t_charge t) (i_charge y) /\
+    obound (fun e => e < u) (t_advances t) (i_advances y) /\
+    obound (fun e => e < u) (t_due t) (i_due y).
 Proof.
   intros S B H. destruct (precise_error_bound_budget d t S H) as (y & E & K). exists y. split; [exact E|].
-  cbv zeta in K. destruct K as (K1 & K2 & K3 & K4 & K5).
+  cbv zeta in *. destruct K as (K1 & K2 & K3 & K4 & K5 & K6 & K7 & K8 & K9).
   pose proof (b_cats_nonneg d) as CN. pose proof (b_inc_nonneg d) as IN. pose proof (e_sum_nonneg (d_lines d)) as EN.
   pose proof (nQ_nonneg (length (d_discounts d))) as N1. pose proof (nQ_nonneg (length (d_charges d))) as N2.
-  pose proof (unitQ_pos (d_c d)) as U. rewrite eps_unit in K1, K2, K3, K4, K5.
-  unfold b_payable, b_twt, b_tax, b_total, b_total1, b_drow in *.
-  set (u := unitQ (d_c d)) in *. set (es := e_sum (d_lines d)) in *. set (bc := b_cats d) in *. set (bi := b_inc d) in *.
+  pose proof (nQ_nonneg (length (d_advances d))) as N3.
+  pose proof (unitQ_pos (d_c d)) as U.
+  assert (G : forall b, 0 <= b -> b <= b_due d -> b * eps (d_c d) + (1 # 2) * unitQ (d_c d) < unitQ (d_c d)).
+  { intros b B0 B1. rewrite eps_unit. set (u := unitQ (d_c d)) in *. nra. }
+  unfold b_due, b_advances, b_payable, b_twt, b_tax, b_total, b_total1, b_discount, b_charge, b_drow in *.
+  set (es := e_sum (d_lines d)) in *. set (bc := b_cats d) in *. set (bi := b_inc d) in *.
   set (n1 := nQ (length (d_discounts d))) in *. set (n2 := nQ (length (d_charges d))) in *.
-  assert (0 <= n1 * (es + 1)) by nra. assert (0 <= n2 * (es + 1)) by nra.
+  set (n3 := nQ (length (d_advances d))) in *.
+  assert (M1 : 0 <= n1 * (es + 1)) by nra. assert (M2 : 0 <= n2 * (es + 1)) by nra.
   set (m1 := n1 * (es + 1)) in *. set (m2 := n2 * (es + 1)) in *.
-  repeat split; (eapply Qle_lt_trans; [eassumption|]); nra.
+  set (tw := es + (m1 + 1) + (m2 + 1) + bi + (2 * bc + 1)) in *.
+  assert (TW : 0 <= tw) by (unfold tw; lra).
+  assert (M3 : 0 <= n3 * (tw + 1)) by nra. set (m3 := n3 * (tw + 1)) in *.
+  split; [eapply Qle_lt_trans; [exact K1|apply G; unfold tw; lra]|].
+  split; [eapply Qle_lt_trans; [exact K2|apply G; unfold tw; lra]|].
+  split; [eapply Qle_lt_trans; [exact K3|apply G; unfold tw; lra]|].
+  split; [eapply Qle_lt_trans; [exact K4|apply G; unfold tw; lra]|].
+  split; [eapply Qle_lt_trans; [exact K5|apply G; unfold tw; lra]|].
+  split; [eapply obound_lt; [exact K6|apply G; unfold tw; lra]|].
+  split; [eapply obound_lt; [exact K7|apply G; unfold tw; lra]|].
+  split; [eapply obound_lt; [exact K8|apply G; unfold tw; lra]|].
+  eapply obound_lt; [exact K9|apply G; unfold tw; lra].
 Qed.
